@@ -1,0 +1,3 @@
+// Package verifhook re-exports internal packages for the external verification
+// harness. All functionality lives behind the `verif` build tag.
+package verifhook
